@@ -67,6 +67,8 @@ def gen_config(rng, force=False):
     has_mag = any(lt in lc.MAG_TYPES for _, lt, _ in lenses)
     model = {}
     lo_c, up_c = copy.deepcopy(COSMO_BOX[cosmology])
+    if rng.random() < 0.3:
+        lo_c["h0"] = 0      # a box that reaches H0 = 0 (the repository's own tests use it): distances diverge on that face
     lo_l, up_l, lo_k, up_k, lo_s, up_s = {}, {}, {}, {}, {}, {}
     if rng.random() < 0.5:
         model["ppn_sampling"] = True
@@ -371,6 +373,8 @@ def run(ctx, res):
             lines.append({"op": "C02.likelihood", "lower": [f2b(v) for v in lo], "upper": [f2b(v) for v in up],
                           "olcdm": cfg["cosmology"] == "oLCDM", "lensZ": [f2b(z) for z in lens_z], "zMax": f2b(float(cl._z_max)),
                           "args": [f2b(v) for v in x], "om": f2b(kw.get("om", 0.3)), "ok": f2b(kw.get("ok", 0.0)),
+                          # the sampled H0 when the distances are built from it (not with caller-tabulated distances)
+                          "h0": (None if (kind.startswith("tab_") or "h0" not in kw) else f2b(kw["h0"])),
                           "lens": [f2b(v) for v in raw], "sne": (f2b(sne_val) if sne_val is not None else None), "kde": None, "prior": None})
             meta.append((cfg, x, kind, out, counts))
     if ctx.search_mode:
